@@ -188,6 +188,24 @@ CLAIMED["C08"] = dict(
               "obligations discharged by z3/cvc5",
     design="§3 C08")
 
+CLAIMED["C09"] = dict(
+    text="Proof that limit/offset is exactly a contiguous window of the ordered input for the two lazy limit operators: with the "
+         "input iterator modelled as a ghost cursor (pos = items delivered, done = exhausted; Next assumed to advance by one or "
+         "report exhaustion), measure limitIterator.Next and trace traceLimitIterator.Next deliver, as their k-th item, input item "
+         "offset+k; never more than limit items (trace: limit 0 = unlimited); skip nothing inside the window; and report the end "
+         "only when the input is exhausted or the window is full - for every uint32/int offset and limit and any number of calls "
+         "(the contracts are inductive across calls: the synchronisation invariant between the operator's counter and the cursor "
+         "is both required and re-established). The check found and fixed a genuine defect (window restart when offset+limit "
+         "exceeds MaxUint32, 3ce76e1, see known_findings.json).",
+    note=COMMON_NOTE + "Assumed: the iterator interface contract (ghost cursor). Narrow claim, said plainly: the 'globally sorted "
+         "across parts, shards, segments and nodes' half is NOT decided here - the merge heaps (pkg/iter/sort, sidx "
+         "QueryResponseHeap, stream/measure result heaps) need a container/heap model and multiset reasoning that is not built, "
+         "the stream limit operator (slices of proto elements), distributed merge (dquery) and the inverted-index sort (bluge) are "
+         "out of reach; only the window half of the property is proved, for the measure row path and the trace path.",
+    technique="contract-based deductive verification with ghost cursors on iterator interfaces: VCs from the typed Go AST (govc), "
+              "call-by-contract on interface methods, loop invariants; obligations discharged by z3/cvc5",
+    design="§3 C09")
+
 NOT_APPLICABLE = {
     "C15": "equivalence of two whole query pipelines over generated proto types: translation validation, no function contract states it (DESIGN.md §5)",
     "C17": "whole-cluster equivalence and gRPC/proto-typed transfer code with no type information in this tree (DESIGN.md §5)",
